@@ -278,6 +278,14 @@ pub fn judge_c05(m: &GenModel, truth: Verdict, cfg: &RunCfg, res: &RunResult) ->
                 out.push(f("panic", format!("panicked: {msg}")));
             }
         }
+        Outcome::Hung { secs } => out.push(f(
+            "hang",
+            format!(
+                "did not return within {secs} s of wall-clock time (the limit-taking twin of this call terminated within its step budget); the model is {}",
+                truth.tag()
+            ),
+        )),
+        Outcome::NotRun => {}
         Outcome::NoProgress { reads } => out.push(f(
             "no-progress",
             format!(
@@ -370,7 +378,7 @@ pub fn judge_c15(m: &GenModel, truth: Verdict, cfg: &RunCfg, res: &RunResult) ->
             _ => {}
         },
         Outcome::Panic { msg } => out.push(f("panic", format!("panicked: {msg}"))),
-        Outcome::NoProgress { .. } => {}
+        Outcome::NoProgress { .. } | Outcome::Hung { .. } | Outcome::NotRun => {}
     }
     out
 }
